@@ -384,6 +384,13 @@ Definition prec_sem (l : list (bool * sem)) : sem :=
   | (_, s) :: r => SOr (map SAnd (or_groups r [s]))
   end.
 
+(* clause.And with a single operand returns that operand *)
+Fixpoint cstrip (c : cexpr) : cexpr :=
+  match c with
+  | CAndE [x] => cstrip x
+  | _ => c
+  end.
+
 Section SpecWithAtoms.
 Variable tbl : atom_table.
 
@@ -454,8 +461,9 @@ Fixpoint umean (u : unit_) : option (option (sem * sem)) :=
   | UExpr c =>
     match csem c with
     | Some s =>
-      let n := match c, s with
-               | CAndE (_ :: _ :: _), SAnd l => SAnd (map SNot l)   (* AND-combined: every member false *)
+      (* clause.And(x) with one operand is x itself: look through such wrappers *)
+      let n := match cstrip c, csem (cstrip c) with
+               | CAndE (_ :: _ :: _), Some (SAnd l) => SAnd (map SNot l)   (* AND-combined: every member false *)
                | _, _ => SNot s
                end in
       Some (Some (s, n))
